@@ -1,4 +1,7 @@
 import FxVerif.Model.C17
+import FxVerif.Model.C17Proc
+import FxVerif.Model.C17Machine
+import FxVerif.Proofs.C17
 /-!
 # C17 — deterministic block execution (the part a Lean model can carry)
 
@@ -6,7 +9,17 @@ import FxVerif.Model.C17
 inventory with a class consistent with what the typed translator saw (`inventory_covered`, re-decided on every run);
 (b) for each class, the modelled computation is independent of the iteration order (permutation of the entries), hence
 of Go's randomised map order.  IEEE-754 exactness of integer sums below 2^53 is the named assumption for `permSum`.
-Process-, scheduler- and dependency-level nondeterminism is outside the model: validated by repeated-process runs.
+(c) every write to process-level memory (package variables, long-lived struct fields, sync / cache types) found by the
+typed translator is in the reviewed allow-list with an admissible class (`no_process_state`); for the node model (chain
+state on disk, memory in the process; block transactions, CheckTx / simulations / queries, restarts) the observations of
+the block history do not depend on the process history when memory cannot influence state and output
+(`process_history_irrelevant`, corollaries for construction-time wiring and unmetered memo tables), and do depend on it for
+a cache whose hit is cheaper than its miss (`cached_gas_breaks_determinism`).
+(d) the block machine of `Model/C17Machine.lean` (the anchored map-consuming steps with an adversarial schedule of map
+iteration orders) ends in the same state with the same outputs for all schedules and all operation lists
+(`run_schedule_independent`); the variant of `UpdateProposalOracles` that collects the oracles to unbond by ranging over a
+map does not (`mapFed_unbond_schedule_dependent`); which variant the source has is regenerated (`unbond_order_from_store`).
+Scheduler-, allocator- and dependency-level nondeterminism is outside the model: validated by repeated-process runs.
 -/
 namespace FxVerif.Props.C17
 open FxVerif.Gen.C17 FxVerif.Model.C17 List
@@ -113,7 +126,149 @@ theorem tokenTotals_perm {l₁ l₂ : List (String × Nat × Nat)} (h : l₁.Per
   simp only [Prod.mk.injEq]
   exact ⟨(hf.map _).sum_nat, (hf.map _).sum_nat, hf.length_eq⟩
 
+/-! ## (c) process-level mutable state -/
+
+/-- obligation over the regenerated inventory of process-level mutable state -/
+theorem no_process_state : procSites.all psCovered = true := by decide
+
+/-- a node's state and the outputs of its delivered transactions depend only on the block history — not on restarts,
+served CheckTx / simulations / queries, or the memory it started with — whenever there is an invariant of process memory
+that holds after construction, is preserved by every handler, and under which state effect and output of a handler do not
+depend on the memory content -/
+theorem process_history_irrelevant {M S I O : Type} (h : Handler M S I O) (m₀ : M) (Inv : M → Prop) (hinit : Inv m₀)
+    (hpres : ∀ m s i, Inv m → Inv (h m s i).1)
+    (hindep : ∀ m m' s i, Inv m → Inv m' → (h m s i).2 = (h m' s i).2)
+    (evs₁ evs₂ : List (Ev I)) (hb : blocksOf evs₁ = blocksOf evs₂) (n₁ n₂ : Node M S) (hs : n₁.st = n₂.st)
+    (h₁ : Inv n₁.mem) (h₂ : Inv n₂.mem) :
+    (runEvs h m₀ n₁ evs₁).1.st = (runEvs h m₀ n₂ evs₂).1.st ∧ (runEvs h m₀ n₁ evs₁).2 = (runEvs h m₀ n₂ evs₂).2 := by
+  have r₁ := FxVerif.Proofs.C17.run_eq_pure h m₀ Inv hinit hpres hindep evs₁ n₁ h₁
+  have r₂ := FxVerif.Proofs.C17.run_eq_pure h m₀ Inv hinit hpres hindep evs₂ n₂ h₂
+  rw [r₁.1, r₁.2, r₂.1, r₂.2, hb, hs]
+  exact ⟨rfl, rfl⟩
+
+/-- class `wiring`: memory that is only written by construction (`m₀`, a function of nothing) and read-only for every
+handler cannot make two nodes disagree, whatever their process histories -/
+theorem wiring_process_history_irrelevant {M S I O : Type} (h : Handler M S I O) (m₀ : M)
+    (hro : ∀ m s i, (h m s i).1 = m) (evs₁ evs₂ : List (Ev I)) (hb : blocksOf evs₁ = blocksOf evs₂) (s : S) :
+    (runEvs h m₀ ⟨m₀, s⟩ evs₁).1.st = (runEvs h m₀ ⟨m₀, s⟩ evs₂).1.st ∧
+    (runEvs h m₀ ⟨m₀, s⟩ evs₁).2 = (runEvs h m₀ ⟨m₀, s⟩ evs₂).2 :=
+  process_history_irrelevant h m₀ (fun m => m = m₀) rfl (fun m s i hm => by rw [hro]; exact hm)
+    (fun m m' s i hm hm' => by rw [hm, hm']) evs₁ evs₂ hb _ _ rfl rfl rfl
+
+/-- an unmetered memo table of a pure function is invisible: nodes with arbitrary (valid) table contents agree -/
+theorem memo_process_history_irrelevant (f : String → Nat) (evs₁ evs₂ : List (Ev String)) (hb : blocksOf evs₁ = blocksOf evs₂)
+    (mem₁ mem₂ : List (String × Nat)) (v₁ : ∀ e ∈ mem₁, e.2 = f e.1) (v₂ : ∀ e ∈ mem₂, e.2 = f e.1) (s : Nat) :
+    (runEvs (memoHandler f) [] ⟨mem₁, s⟩ evs₁).1.st = (runEvs (memoHandler f) [] ⟨mem₂, s⟩ evs₂).1.st ∧
+    (runEvs (memoHandler f) [] ⟨mem₁, s⟩ evs₁).2 = (runEvs (memoHandler f) [] ⟨mem₂, s⟩ evs₂).2 := by
+  have key : ∀ (m : List (String × Nat)) (s : Nat) (k : String), (∀ e ∈ m, e.2 = f e.1) →
+      (memoHandler f m s k).2 = (s + f k, f k) ∧ (∀ e ∈ (memoHandler f m s k).1, e.2 = f e.1) := by
+    intro m s k hm
+    unfold memoHandler
+    split
+    · rename_i e he
+      have hmem := mem_of_find?_eq_some he
+      have hk : e.1 = k := by simpa using find?_some he
+      rw [hm e hmem, hk]
+      exact ⟨rfl, hm⟩
+    · refine ⟨rfl, ?_⟩
+      intro e he
+      rcases mem_cons.mp he with h1 | h1
+      · rw [h1]
+      · exact hm e h1
+  exact process_history_irrelevant (memoHandler f) [] (fun m => ∀ e ∈ m, e.2 = f e.1) (by simp)
+    (fun m s i hm => (key m s i hm).2)
+    (fun m m' s i hm hm' => by rw [(key m s i hm).1, (key m' s i hm').1]) evs₁ evs₂ hb _ _ rfl v₁ v₂
+
+/-- the seeded shape: a keeper-level cache whose hit costs less gas than its miss.  The same block history gives
+different transaction results on a node that was restarted in between, and on a node that served a simulation first -/
+theorem cached_gas_breaks_determinism :
+    (∃ evs₁ evs₂ : List (Ev String), blocksOf evs₁ = blocksOf evs₂ ∧
+      (runEvs gasCacheHandler [] ⟨[], 0⟩ evs₁).2 ≠ (runEvs gasCacheHandler [] ⟨[], 0⟩ evs₂).2) ∧
+    (runEvs gasCacheHandler [] ⟨[], 0⟩ [.deliver "a", .deliver "a"]).2 ≠
+      (runEvs gasCacheHandler [] ⟨[], 0⟩ [.deliver "a", .restart, .deliver "a"]).2 ∧
+    (runEvs gasCacheHandler [] ⟨[], 0⟩ [.deliver "a"]).2 ≠ (runEvs gasCacheHandler [] ⟨[], 0⟩ [.serve "a", .deliver "a"]).2 :=
+  ⟨⟨[.deliver "a", .deliver "a"], [.deliver "a", .restart, .deliver "a"], rfl, by decide⟩, by decide, by decide⟩
+
+/-! ## (d) the block machine: all schedules of map iteration give the same execution -/
+
+/-- regenerated order source of the unbonding loop of `UpdateProposalOracles`: the store iteration, not a map -/
+theorem unbond_order_from_store : unbondFedByMap = false ∧ unbondFedByStore = true := by decide
+
+/-- no locally collected slice that is then ranged over with effects is appended to inside a range over a map (unless it
+is sorted afterwards) -/
+theorem effect_slices_not_fed_by_maps : sliceFeeders.all (fun f => f.kind != "map" || f.sorted) = true := by decide
+
+/-- one operation: final state and output are the same for any two schedules -/
+theorem exec_schedule_independent (σ₁ σ₂ : Sched) (st : St) (op : Op) : execP false σ₁ st op = execP false σ₂ st op := by
+  cases op with
+  | updateOracles new => rfl
+  | tally vals =>
+    have hp : (σ₁.pick st.ranges _ vals).Perm (σ₂.pick st.ranges _ vals) := (σ₁.perm _ _ _).trans (σ₂.perm _ _ _).symm
+    simp only [execP, rangeMap]
+    rw [tally_perm (hp.map _)]
+  | batchFees pool mx base =>
+    simp only [execP, getAllBatchFees, rangeMap]
+    have hn := FxVerif.Proofs.C17.nodup_createBatchFees pool mx base
+    have hp : (σ₁.pick st.ranges _ (createBatchFees pool mx base)).Perm (σ₂.pick st.ranges _ (createBatchFees pool mx base)) :=
+      (σ₁.perm _ _ _).trans (σ₂.perm _ _ _).symm
+    have heq := FxVerif.Proofs.C17.mergeSort_eq_of_perm feeLe
+      (fun a b c => FxVerif.Proofs.C17.strLe_trans a.1 b.1 c.1) (fun a b => FxVerif.Proofs.C17.strLe_total a.1 b.1) hp
+      (fun a b ha hb h1 h2 => FxVerif.Proofs.C17.eq_of_key_eq _ hn a b ((σ₁.perm _ _ _).mem_iff.mp ha) ((σ₁.perm _ _ _).mem_iff.mp hb)
+        (FxVerif.Proofs.C17.strLe_antisymm _ _ h1 h2))
+    rw [heq]
+  | powerDiff cur latest =>
+    have hp : (σ₁.pick st.ranges _ (mergePowers cur latest)).Perm (σ₂.pick st.ranges _ (mergePowers cur latest)) :=
+      (σ₁.perm _ _ _).trans (σ₂.perm _ _ _).symm
+    simp only [execP, rangeMap]
+    rw [absSum_perm (hp.map _)]
+  | supportChains reg =>
+    have hp : (σ₁.pick st.ranges _ reg).Perm (σ₂.pick st.ranges _ reg) := (σ₁.perm _ _ _).trans (σ₂.perm _ _ _).symm
+    simp only [execP, rangeMap, sortChains]
+    rw [FxVerif.Proofs.C17.mergeSort_eq_of_perm strLe FxVerif.Proofs.C17.strLe_trans FxVerif.Proofs.C17.strLe_total hp
+      (fun a b _ _ => FxVerif.Proofs.C17.strLe_antisymm a b)]
+
+/-- all histories: for every list of operations, from every state, any two schedules of map iteration orders produce the
+same final state (hence the same application hash) and the same outputs, operation by operation -/
+theorem run_schedule_independent (σ₁ σ₂ : Sched) : ∀ (ops : List Op) (st : St), runP false σ₁ st ops = runP false σ₂ st ops := by
+  intro ops
+  induction ops with
+  | nil => intro st; rfl
+  | cons op rest ih =>
+    intro st
+    simp only [runP]
+    rw [exec_schedule_independent σ₁ σ₂ st op, ih]
+
+/-- … and this is the machine of the source as it is now (the order source is regenerated) -/
+theorem run_schedule_independent_source (σ₁ σ₂ : Sched) (ops : List Op) (st : St) : run σ₁ st ops = run σ₂ st ops := by
+  unfold run
+  rw [unbond_order_from_store.1]
+  exact run_schedule_independent σ₁ σ₂ ops st
+
+/-- the order of the two steps matters: unbonding is not commutative (unbonding ids, queue order, events) -/
+theorem unbond_order_observable :
+    ∃ (st : St) (a b : Oracle), unbondAll st [a, b] ≠ unbondAll st [b, a] :=
+  ⟨⟨[⟨"o1", 1, true, 5⟩, ⟨"o2", 1, true, 5⟩], ["o1", "o2"], 7, [], [], 0⟩, ⟨"o1", 1, true, 5⟩, ⟨"o2", 1, true, 5⟩, by decide⟩
+
+/-- if the list of oracles to unbond is collected by ranging over a map (the seeded variant), two schedules give
+different states for the same proposal: the property fails -/
+theorem mapFed_unbond_schedule_dependent :
+    ∃ (st : St) (new : List String),
+      execP true Sched.id st (.updateOracles new) ≠ execP true Sched.rev st (.updateOracles new) :=
+  ⟨⟨[⟨"o1", 1, true, 5⟩, ⟨"o2", 1, true, 5⟩, ⟨"o3", 10, true, 5⟩], ["o1", "o2", "o3"], 7, [], [], 0⟩, ["o3"], by decide⟩
+
+/-- in the source's variant the oracles are unbonded in store order: the unbonded addresses form a sublist of the store
+iteration -/
+theorem unbondList_store_order (σ : Sched) (st : St) (new : List String) :
+    ((unbondList false σ st new).1.map (·.addr)).Sublist (st.oracles.map (·.addr)) := by
+  simp only [unbondList, Bool.false_eq_true, if_false]
+  exact (filter_sublist).map _
+
 -- non-vacuity
+example : procSites.length ≥ 5 := by decide
+example : sliceFeeders.length ≥ 2 := by decide
+example : (run Sched.id ⟨[⟨"o1", 1, true, 5⟩, ⟨"o2", 1, true, 5⟩, ⟨"o3", 10, true, 5⟩], ["o1", "o2", "o3"], 7, [], [], 0⟩
+    [.updateOracles ["o3"], .powerDiff [("a", 5), ("b", 7)] [("b", 2), ("c", 4)]]).2 = [.unbonded [("o1", 7), ("o2", 8)], .num 14] := by decide
+example : createBatchFees [⟨"b", 5, 10⟩, ⟨"a", 1, 5⟩, ⟨"b", 3, 7⟩, ⟨"b", 2, 1⟩] 2 [("a", 2)] = [("b", 8, 17, 2)] := by decide
 example : sites.length ≥ 20 := by decide
 example : absSum [3, -4, 0] = 7 := by decide
 example : powerDiffNumerator [("a", 5), ("b", 7)] [("b", 2), ("c", 4)] = 5 + 5 + 4 := by decide
